@@ -245,21 +245,30 @@ impl Prop for C19 {
                 let (from, to, host, base, rate, mode) = if from_client { (c, s, &hc, base_c, rate_c, mode_c) } else { (s, c, &hs, base_s, rate_s, mode_s) };
                 let val = tsv(base, rate, mode, t_ms, k, r);
                 let has_ts = !r.chance(1, 12);
+                // later segments: mostly plain ACK/data, one in six a retransmitted handshake segment of that direction
+                let rexmit = k >= 2 && r.chance(1, 6);
                 let mut seg = match k {
                     0 => tcp::syn(host, c, s, 1000, 0),
                     1 => tcp::syn_ack(host, c, s, 5000, 1000, 0, 0),
+                    _ if rexmit && from_client => tcp::syn(host, c, s, 1000, 0),
+                    _ if rexmit => tcp::syn_ack(host, c, s, 5000, 1000, 0, 0),
                     _ => tcp::data(host, from, to, 1001 + k as u32, 5001, if r.chance(1, 2) { vec![b'x'; 10] } else { vec![] }, 0, 0, pkt::ACK),
                 };
+                // flag bits that do not take part in the role rule (ECN negotiation sets ECE/CWR on the handshake)
+                if r.chance(1, 5) {
+                    seg.flags |= *r.pick(&[0xc0u8, 0x40, 0x80, 0x20, 0x08, 0xc8]);
+                }
+                let k_opts = if rexmit { if from_client { 0 } else { 1 } } else { k };
                 // rewrite the option bytes with our own TSval (or strip the option)
                 seg.tcp_opts = if has_ts {
-                    let mut o = if k < 2 { pkt::opt::mss(1460) } else { vec![1, 1] };
-                    if k < 2 {
+                    let mut o = if k_opts < 2 { pkt::opt::mss(1460) } else { vec![1, 1] };
+                    if k_opts < 2 {
                         o.extend(pkt::opt::nop());
                         o.extend(pkt::opt::nop());
                     }
-                    o.extend(pkt::opt::ts(val, if k == 0 { 0 } else { 1 }));
+                    o.extend(pkt::opt::ts(val, if k_opts == 0 { 0 } else { 1 }));
                     o
-                } else if k < 2 {
+                } else if k_opts < 2 {
                     pkt::opt::mss(1460)
                 } else {
                     vec![]
